@@ -1138,8 +1138,8 @@ func main() {
 		if rounds <= 0 {
 			rounds = 1
 		}
-		if run.Thorough() {
-			rounds *= 10
+		if run.Thorough() && c.Rounds > 0 {
+			rounds *= 10 // the corpus scenarios (the generated ones are multiplied through n below)
 		}
 		c.Rounds = 0
 		for k := 0; k < rounds; k++ {
@@ -1151,7 +1151,7 @@ func main() {
 	for _, c := range corpus() {
 		push(c)
 	}
-	n := run.Pick(1500, 30000)
+	n := run.Pick(4000, 40000)
 	if st := os.Getenv("C11_STRESS"); st != "" {
 		// development aid: C11_STRESS=<file with one JSON case> runs that scenario 400 times instead of the generated ones
 		var c Case
